@@ -1,0 +1,28 @@
+//go:build verif
+
+package parse
+
+import (
+	"fmt"
+	"os"
+	"sync/atomic"
+)
+
+// Verification hook (build tag verif only): a step budget for the lexer.
+// The lexer consumes each rune O(1) times (at most 3 calls of next() per byte
+// on every path), so a count above 16*len(input)+4096 can only be produced by
+// a loop that does not advance.
+
+var verifLexSteps atomic.Int64
+var verifLexMax atomic.Int64 // high-water mark of steps/len ratio observation: max steps seen for one lexer
+
+// VerifLexStepsReset returns the steps counted since the last reset.
+func VerifLexStepsReset() int64 { return verifLexSteps.Swap(0) }
+
+func verifLexStep(l *lexer) {
+	n := verifLexSteps.Add(1)
+	if n > int64(16*len(l.input)+4096) {
+		fmt.Fprintf(os.Stderr, "STEP-BUDGET name=%s steps=%d len=%d pos=%d\n", l.name, n, len(l.input), l.pos)
+		os.Exit(97)
+	}
+}
